@@ -22,7 +22,7 @@ USES = {
  'C18': ['StrFns', 'ParserA', 'ProbesPm'],
  'C20': ['Chr', 'Slice', 'Concat', 'CStr'],
  'C19': ['ProbesOpt'],
- 'C10': ['SliceIter2', 'ProbesIter'],
+ 'C10': ['SliceIter2', 'ProbesIter', 'ProbesIterModel'],
 }
 for p, ms in USES.items():
     have = [m for m in ms if os.path.exists(f'{OB}/equiv/{m}.txt')]
